@@ -31,6 +31,7 @@ programs compute the model's steps.
 """
 import ast
 import copy
+import re
 
 import py2lean_dispatch as D
 
@@ -402,6 +403,36 @@ class TrLife(D.TrProg):
                     return (lean.format(P=P), ty)
         return super().effect(node, env)
 
+    @staticmethod
+    def plain(node):
+        """an expression whose evaluation has no effect and cannot raise in a way that matters: names, attribute
+        chains, constants"""
+        if isinstance(node, (ast.Name, ast.Constant)):
+            return True
+        if isinstance(node, ast.Attribute):
+            return TrLife.plain(node.value)
+        return False
+
+    def ignorable_call(self, node):
+        """logging calls are ignored -- but only calls of the logging methods themselves (not `blk.<anything>`), and
+        only when every argument is a plain name / attribute / constant: the arguments are evaluated eagerly, so
+        an eager `%`-formatting, a call or a comprehension among them could raise or have an effect"""
+        if not isinstance(node, ast.Call):
+            return False
+        p = D.path_or_none(node.func) or ''
+        if not any(re.fullmatch(pat, p) for pat in self.t.get('ignore_re', ())):
+            return False
+        for a in list(node.args) + [k.value for k in node.keywords]:
+            if not self.plain(a):
+                raise self.U('argument of an ignored logging call is not a plain name/attribute/constant: '
+                             + ast.unparse(a)[:60])
+        return True
+
+    def pure_test(self, node):
+        """test of an ignored `assert`: no calls, no walrus, no comprehension"""
+        return not any(isinstance(n, (ast.Call, ast.NamedExpr, ast.Await, ast.ListComp, ast.SetComp, ast.DictComp,
+                                      ast.GeneratorExp, ast.Yield, ast.YieldFrom)) for n in ast.walk(node))
+
     def narrowing(self, test, env):
         def opt(name):
             return name in env and env[name][1] in self.OPT
@@ -418,6 +449,13 @@ class TrLife(D.TrProg):
             s, rest = stmts[0], list(stmts[1:])
             if isinstance(s, ast.Pass):
                 return self.block(rest, env, fall, ind, live)
+            if isinstance(s, ast.Assert):
+                # ignored (python -O removes it) -- provided that evaluating it cannot do anything
+                if not self.pure_test(s.test) or (s.msg is not None and not self.plain(s.msg)):
+                    raise self.U('assert with a call / effect: ' + ast.unparse(s)[:60])
+                return self.block(rest, env, fall, ind, live)
+            if isinstance(s, ast.Raise) and s.cause is not None:
+                raise self.U('raise ... from ...')
             # raise <optional exception held in the state>: `raise self._error`
             if isinstance(s, ast.Raise) and s.exc is not None:
                 p = D.path_or_none(s.exc)
@@ -612,7 +650,7 @@ def run_tasks_target(api):
         name='runTasks', doc='simulator.Circuit._run_tasks', node=lambda: api.fn_ast(simulator.Circuit._run_tasks),
         P='P', prims='RunTasksPrims σ ε β κ', tyvars='{σ ε β κ : Type}', ret_lean='Unit',
         args=[('btt_list', 'bttlist')], ret_type='unit',
-        ignore=('blk_*', '_logger.*'),
+        ignore_re=(r'blk_\d+\.log_\w+', r'_logger\.\w+'),
         awaited=('asyncio.wait_for',), hoist=('get_time',),
         atoms={'asyncio.get_running_loop().time': ('()', 'clockfn')},
         call_texts=[('sorted(btt_list, key=operator.itemgetter(2), reverse=True)', '{P}.sortDesc btt_list', 'bttlist')],
@@ -636,7 +674,7 @@ def stop_sblocks_target(api):
         node=lambda: api.fn_ast(simulator.Circuit._stop_sblocks),
         P='P', prims='StopPrims σ ε β κ', tyvars='{σ ε β κ : Type}', ret_lean='Unit',
         args=[('blocks', 'blkset')], ret_type='unit',
-        ignore=('self.log_*', '_logger.*'),
+        ignore_re=(r'self\.log_\w+', r'_logger\.\w+'),
         awaited=('asyncio.sleep', 'self._run_tasks'),
         methods_typed=[('blkset', 'intersection', ('blkfilter',), '(List.filter {a[0]} {x})', 'blkset'),
                        ('blkset', 'difference', ('blkset',), '(List.filter ({P}.notIn {a[0]}) {x})', 'blkset')],
@@ -660,7 +698,7 @@ def init_async_target(api):
         node=lambda: api.fn_ast(simulator.Circuit._init_sblocks_async),
         P='P', prims='InitAsyncPrims σ ε β κ', tyvars='{σ ε β κ : Type}', ret_lean='Unit',
         args=[], ret_type='unit',
-        ignore=('self.log_*', '_logger.*'),
+        ignore_re=(r'self\.log_\w+', r'_logger\.\w+'),
         awaited=('self._run_tasks',),
         call_texts=[('self.getblocks(addons.AddonAsync)', '{P}.asyncBlocks', 'blklist'),
                     ("{v}.has_method('init_async')", '{P}.hasInitAsync {v}', 'bool'),
@@ -679,7 +717,7 @@ def run_forever_target(api):
         name='runForever', doc='simulator.Circuit.run_forever', node=lambda: api.fn_ast(simulator.Circuit.run_forever),
         P='P', prims='RunForeverPrims σ ε β', tyvars='{σ ε β : Type}', ret_lean='Unit',
         args=[], ret_type='unit',
-        ignore=('self.log_*', '_logger.*'),
+        ignore_re=(r'self\.log_\w+', r'_logger\.\w+'),
         awaited=('_test_eager_tasks', 'asyncio.sleep', 'self._init_sblocks_async', 'self._simulate',
                  'self._stop_sblocks'),
         cells={'started_blocks': ('blkset', None), 'start_ok': ('bool', None)},
